@@ -282,7 +282,7 @@ def main(tier, replay):
 
     # ---- N-dimensional oracle (reference index-range maps, row-major iteration, views, constructors), under ASan
     ndout = os.path.join(vlib.OUT, "c11_nd.out")
-    nh, nl = (400, 25) if tier == "quick" else (6000, 50)
+    nh, nl = (1500, 30) if tier == "quick" else (20000, 50)
     env = dict(os.environ, ASAN_OPTIONS="detect_leaks=0:exitcode=66", UBSAN_OPTIONS="exitcode=66")
     if os.path.exists(ndout):
         os.remove(ndout)
@@ -308,8 +308,10 @@ def main(tier, replay):
                 seen.add(parts[1])
                 chk.violation(parts[1], (parts[2] if len(parts) > 2 else parts[1])[:400], "# seed=%d tier=%s\n%s\n" % (vlib.seed(), tier, l))
     if (r.returncode != 0 or not nd_done) and not fails:
-        chk.violation("nd:abort", "N-dimensional array oracle aborted (sanitizer report or crash): " + r.stdout[-400:].replace("\n", " | "),
-                      r.stdout[-3000:])
+        summary = [l.strip() for l in r.stdout.splitlines()
+                   if "ERROR: AddressSanitizer" in l or "runtime error:" in l or l.startswith(("ABORTED-IN", "SUMMARY:"))]
+        chk.violation("nd:abort", "N-dimensional array oracle aborted (sanitizer report or crash): " + " | ".join(summary)[:600],
+                      "\n".join(summary) + "\n" + r.stdout[-6000:])
 
     for l in nd_ops:
         op_hist["nd:" + l] = nd_ops[l]
